@@ -1110,6 +1110,15 @@ impl Handler {
                     if let Some(request_id) = session.awaiting_enr.as_ref() {
                         if &response.id == request_id {
                             session.awaiting_enr = None;
+                            // The ENR request has been answered: it is no longer active and
+                            // expects no further response.
+                            if self
+                                .active_requests
+                                .remove_request(&node_address, &response.id)
+                                .is_some()
+                            {
+                                self.remove_expected_response(node_address.socket_addr);
+                            }
                             match response.body {
                                 ResponseBody::Nodes { mut nodes, .. } => {
                                     // Received the requested ENR
